@@ -46,7 +46,7 @@ fn verdict_of_msg(msg: &str) -> u64 {
 /// model kind code of a harness kind
 fn model_kind(kind: &str) -> u64 {
     match kind {
-        "read" | "write" | "write_plain" | "write_append" | "ls" | "grep" | "bash" => 0,
+        "read" | "write" | "write_plain" | "write_append" | "ls" | "grep" | "bash" | "task_spawn" => 0,
         "patch_add" | "patch_delete" | "patch_update" | "patch_move" => 1,
         "tool_patch_add" | "tool_patch_move" => 2,
         "ck_create" | "ck_runner" => 3,
@@ -54,6 +54,9 @@ fn model_kind(kind: &str) -> u64 {
         "auto_patch" => 5,
         "rewind_id" => 6,
         "task" => 7,
+        "bash_nocwd" | "task_nocwd" => 8, // no cwd argument: the child runs in the workspace root
+        "rewind_tampered" => 10,          // a recorded path read back from the store goes through safe_join
+        "stdpath" => 11,                  // Path::parent / with_extension of root.join(raw), file_name of raw
         _ => 99,
     }
 }
@@ -87,7 +90,7 @@ fn patch_text(kind: &str, raw: &str) -> String {
 /// independent reading of the property text
 fn must_refuse(kind: &str, raw: &str, root: &str) -> bool {
     match model_kind(kind) {
-        0 | 7 | 4 => lexically_absolute(raw) || lexically_parent(raw),
+        0 | 7 | 4 | 10 => lexically_absolute(raw) || lexically_parent(raw),
         1 | 2 | 5 => {
             let t = raw.trim();
             t.is_empty() || lexically_absolute(t) || lexically_parent(t)
@@ -348,6 +351,13 @@ fn run_case(rt: &tokio::runtime::Runtime, case: &Value) -> Obs {
     let root_s = sbx.root.to_string_lossy().to_string();
     let ws = Workspace::new(&sbx.root).expect("workspace");
     std::env::set_current_dir(sbx.cwd_dir(cwd)).expect("chdir");
+    if kind == "ls_ignore" || kind == "grep_ignore" {
+        // SENTINEL ignore rules above the root (`.ignore` is honoured without a git repository; `.gitignore` needs one)
+        std::fs::write(sbx.sb.join(".ignore"), "a.txt\n").unwrap();
+        std::fs::write(sbx.top.join("p1").join(".ignore"), "x.txt\n").unwrap();
+        std::fs::create_dir_all(sbx.sb.join(".git")).unwrap();
+        std::fs::write(sbx.sb.join(".gitignore"), "only_ws.txt\nz.txt\n").unwrap();
+    }
     let mut st = Step { sbx: &sbx, viol: vec![] };
     let mut verdict = V_OTHER;
     let mut out = String::new();
@@ -557,6 +567,162 @@ fn run_case(rt: &tokio::runtime::Runtime, case: &Value) -> Obs {
                 st.check(&format!("{kind}/rewind"), &b2, &a2, false, "");
             }
         }
+        // a command without a `cwd` argument: the child's working directory must be the workspace
+        // root whatever the working directory of the serving process is (relative paths inside the
+        // command land there)
+        "bash_nocwd" => {
+            let h = registry(&sbx.root).get("bash").expect("tool");
+            let o = rt.block_on((h)(ToolInvocation { name: "bash".into(), args: json!({"command": "pwd -P; echo made-by-bash > nocwd_made.txt"}), timeout_ms: None }));
+            let after = sbx.snapshot();
+            verdict = if o.exit_code == 0 { V_OK } else { V_OTHER };
+            st.check(&kind, &before, &after, false, "");
+            let l = o.stdout.first().map(|l| l.trim_end_matches('\n').to_string()).unwrap_or_default();
+            if o.exit_code == 0 {
+                if l == root_s {
+                    eff = Some(vec![]);
+                } else {
+                    st.viol.push((format!("bash without a cwd argument ran in {l}, not in the workspace root"), "default_cwd_not_root".into()));
+                }
+            }
+        }
+        "task_nocwd" | "task_spawn" => {
+            // a real background task (pipes or pty) through the TaskEngine
+            let pty = case["pty"].as_bool().unwrap_or(false);
+            let data = Scratch::new("c13d");
+            let log_path = data.path().join("events.jsonl");
+            let mut args = json!({"command": "pwd -P > nocwd_task.txt"});
+            if kind == "task_spawn" {
+                args["cwd"] = json!(raw);
+            }
+            let trt = tokio::runtime::Builder::new_multi_thread().worker_threads(2).enable_all().build().unwrap();
+            let status = trt.block_on(async {
+                let engine = match ripd::SessionEngine::new(data.path().to_path_buf(), sbx.root.clone(), None) {
+                    Ok(e) => e,
+                    Err(e) => return format!("engine: {e}"),
+                };
+                let id = ripd::verif::spawn_shell_task(&engine, "bash", args, pty);
+                for _ in 0..6000 {
+                    tokio::time::sleep(std::time::Duration::from_millis(20)).await;
+                    let text = std::fs::read_to_string(&log_path).unwrap_or_default();
+                    for line in text.lines() {
+                        if let Ok(v) = serde_json::from_str::<Value>(line) {
+                            if v["session_id"] == json!(id) && v["type"] == "tool_task_status" {
+                                if let Some(s) = v["status"].as_str() {
+                                    if matches!(s, "exited" | "failed" | "cancelled") {
+                                        return format!("{s}:{}", v["error"].as_str().unwrap_or(""));
+                                    }
+                                }
+                            }
+                        }
+                    }
+                }
+                "timeout".to_string()
+            });
+            let after = sbx.snapshot();
+            note = status.clone();
+            let refused = status.starts_with("failed");
+            verdict = if refused { verdict_of_msg(&status) } else { V_OK };
+            if verdict == V_OTHER {
+                verdict = V_OK;
+                note = "os-error".into();
+            }
+            // the engine keeps its task logs under <root>/.rip: not a side effect of the path argument
+            let keep = |l: &Listing| -> Listing { l.iter().filter(|(p, _)| !is_store(p)).map(|(a, b)| (a.clone(), b.clone())).collect() };
+            st.check(&kind, &keep(&before), &keep(&after), verdict != V_OK, "");
+            if status.starts_with("exited") {
+                let made: Vec<Comps> = diff(&before, &after).into_iter().filter(|c| !c.is_dir && c.path.last().map(|n| n == b"nocwd_task.txt").unwrap_or(false)).map(|c| c.path).collect();
+                if made.len() == 1 && is_ws(&made[0]) {
+                    let mut rel = ws_rel(&made[0]);
+                    rel.pop();
+                    if kind == "task_nocwd" && !rel.is_empty() {
+                        st.viol.push((format!("task without a cwd argument ran in {}", show_comps(&made[0])), "default_cwd_not_root".into()));
+                    }
+                    eff = Some(rel);
+                } else if kind == "task_nocwd" {
+                    st.viol.push((format!("task without a cwd argument did not run in the workspace root ({})", made.iter().map(show_comps).collect::<Vec<_>>().join(", ")), "default_cwd_not_root".into()));
+                }
+                if kind == "task_spawn" {
+                    if let Some(t) = expected_target(&sbx.root, &raw) {
+                        if std::fs::read_to_string(t.join("nocwd_task.txt")).map(|c| c.trim_end() != t.to_string_lossy()).unwrap_or(true) {
+                            st.viol.push((format!("task_spawn '{}': exited, but did not run in {}", short(&raw), t.display()), "effect_not_at_root_join".into()));
+                        }
+                    }
+                }
+            } else if status == "timeout" {
+                note = "timeout".into();
+            }
+        }
+        // `ls` / `grep` consult ignore files; one that lies ABOVE the root is a file outside the root that is read
+        "ls_ignore" | "grep_ignore" => {
+            // (the ignore files were placed before the `before` snapshot by the sandbox set-up below)
+            let name = if kind == "ls_ignore" { "ls" } else { "grep" };
+            let args = if name == "ls" { json!({"path": raw, "recursive": true, "include_hidden": true}) } else { json!({"pattern": "in-", "path": raw, "include_hidden": true}) };
+            let h = registry(&sbx.root).get(name).expect("tool");
+            let o = rt.block_on((h)(ToolInvocation { name: name.into(), args, timeout_ms: None }));
+            let after = sbx.snapshot();
+            verdict = if o.exit_code == 0 { V_OK } else { V_OTHER };
+            st.check(&kind, &before, &after, false, &tool_output_text(&o));
+            if o.exit_code == 0 {
+                if let Some(t) = expected_target(&sbx.root, &raw) {
+                    // every regular file of the workspace below the target must be listed / matched
+                    let files: Vec<String> = list_tree(&t).iter().filter(|(_, n)| matches!(n, Node::File(_))).map(|(c, _)| show_comps(c)).collect();
+                    let missing: Vec<&String> = files.iter().filter(|f| !o.stdout.iter().any(|l| l.contains(f.as_str()))).collect();
+                    if !missing.is_empty() {
+                        st.viol.push((format!("{name} '{}' omitted {:?}: an ignore file above the workspace root was read and applied", short(&raw), missing), "ancestor_ignore_file_read".into()));
+                    }
+                }
+            }
+        }
+        // the store can be written through the file tools (it lies inside the root): a recorded path
+        // that rewind reads back from there is a path string like any other
+        "rewind_tampered" => {
+            let h = registry(&sbx.root).get("write").expect("tool");
+            let exists = case["exists"].as_bool().unwrap_or(false);
+            let id = case["id"].as_str().unwrap_or("x").to_string();
+            let meta = json!({"id": id, "session_id": "s1", "label": "t", "created_at_ms": 1, "files": [{"path": raw, "exists": exists, "sha256": null}]});
+            let mut ok = true;
+            for (p, c) in [(".rip/checkpoints/s1/x/checkpoint.json".to_string(), meta.to_string()), (".rip/checkpoints/s1/x/files/keep".to_string(), "k".to_string()), (".rip/checkpoints/s1/x/planted.txt".to_string(), "PLANTED-BY-TOOL\n".to_string())] {
+                let o = rt.block_on((h)(ToolInvocation { name: "write".into(), args: json!({"path": p, "content": c}), timeout_ms: None }));
+                ok &= o.exit_code == 0;
+            }
+            if case["decoy"].as_bool().unwrap_or(false) {
+                let decoy = sbx.sb.join("decoy");
+                std::fs::create_dir_all(decoy.join("files")).unwrap();
+                std::fs::write(decoy.join("files/a.txt"), "SENTINEL-DECOY\n").unwrap();
+                std::fs::write(decoy.join("checkpoint.json"), json!({"id": id, "session_id": "s1", "label": "decoy", "created_at_ms": 1, "files": [{"path": "a.txt", "exists": true, "sha256": null}]}).to_string()).unwrap();
+            }
+            let hook = ripd::verif::workspace_checkpoint_hook(sbx.root.clone()).expect("hook");
+            let b2 = sbx.snapshot();
+            let r = hook.rewind("s1", &id);
+            let a2 = sbx.snapshot();
+            verdict = match &r {
+                Ok(_) => V_OK,
+                Err(m) => verdict_of_msg(m),
+            };
+            if verdict == V_OTHER {
+                verdict = V_OK;
+                note = "os-error".into();
+            }
+            if !ok {
+                note = "setup-failed".into();
+            }
+            st.check(&kind, &b2, &a2, verdict != V_OK, "");
+        }
+        // the std::path functions the tools apply to a resolved path (model: parent / with_extension / file_name)
+        "stdpath" => {
+            verdict = V_OK;
+            if raw.contains('\0') {
+                // with_extension / parent are pure string functions; NUL is as good as any byte
+            }
+            let p = sbx.root.join(&raw);
+            let enc = |o: Option<String>| o.unwrap_or_default();
+            let e = vec![
+                enc(p.parent().map(|x| x.to_string_lossy().to_string())),
+                p.with_extension("tmp-X").to_string_lossy().to_string(),
+                enc(std::path::Path::new(&raw).file_name().map(|x| x.to_string_lossy().to_string())),
+            ];
+            eff = Some(e.into_iter().map(|x| x.into_bytes()).collect());
+        }
         "rewind_id" => {
             // a genuine checkpoint exists; a decoy store lies outside the root
             let _ = ws.create_checkpoint("s1", "real", &[PathBuf::from("a.txt")]);
@@ -598,7 +764,8 @@ fn short(s: &str) -> String {
 }
 
 // ------------------------------------------------------------------ generator
-const KINDS: [&str; 19] = [
+const KINDS: [&str; 21] = [
+    "stdpath", "stdpath",
     "read", "write", "write_plain", "write_append", "ls", "grep", "bash", "task", "patch_add", "patch_delete", "patch_update", "patch_move", "tool_patch_add", "tool_patch_move",
     "ck_create", "ck_create", "ck_runner", "auto_write", "auto_patch",
 ];
@@ -684,6 +851,7 @@ fn systematic(seed: u64, ncores: usize, all_tools: bool) -> Vec<Value> {
                 v.push(deco_case(tools[k % tools.len()], core, pre, inf, suf, cwd));
             }
             v.push(deco_case("task", core, pre, inf, suf, ((k + 1) % 3) as u64));
+            v.push(deco_case("stdpath", core, pre, inf, suf, 0));
             if header_safe(pre, suf) {
                 v.push(deco_case(HEADERS[k % 4], core, pre, inf, suf, cwd));
                 if !*is_dir {
@@ -694,6 +862,38 @@ fn systematic(seed: u64, ncores: usize, all_tools: bool) -> Vec<Value> {
                 v.push(deco_case("auto_write", core, pre, inf, suf, cwd));
             }
             v.push(deco_case(if k % 2 == 0 { "ck_create" } else { "ck_runner" }, core, pre, inf, suf, ((k + 1) % 3) as u64));
+        }
+    }
+    v
+}
+
+/// the cases around the path arguments: no cwd argument at all, ignore files above the root, a store
+/// written through the file tools
+fn special_cases(thorough: bool) -> Vec<Value> {
+    let mut v = vec![];
+    for cwd in 0..3u64 {
+        v.push(json!({"kind": "bash_nocwd", "raw": "", "cwd": cwd}));
+        v.push(json!({"kind": "task_nocwd", "raw": "", "cwd": cwd, "pty": false}));
+        for raw in [".", "d", ""] {
+            v.push(json!({"kind": "ls_ignore", "raw": raw, "cwd": cwd}));
+            v.push(json!({"kind": "grep_ignore", "raw": raw, "cwd": cwd}));
+        }
+        v.push(json!({"kind": "rewind_tampered", "raw": "../outside.txt", "exists": false, "cwd": cwd}));
+        v.push(json!({"kind": "rewind_tampered", "raw": "../new_planted.txt", "exists": true, "cwd": cwd}));
+        v.push(json!({"kind": "rewind_tampered", "raw": "{SB}/outside.txt", "exists": false, "cwd": cwd}));
+        v.push(json!({"kind": "rewind_tampered", "raw": "d/../../outside.txt", "exists": false, "cwd": cwd}));
+        v.push(json!({"kind": "rewind_tampered", "raw": "a.txt", "exists": false, "cwd": cwd}));
+        v.push(json!({"kind": "rewind_tampered", "raw": "a.txt", "exists": true, "id": "../../../../decoy", "decoy": true, "cwd": cwd}));
+        v.push(json!({"kind": "rewind_tampered", "raw": "a.txt", "exists": true, "id": "{SB}/decoy", "decoy": true, "cwd": cwd}));
+    }
+    let spawn: &[(&str, &str, &str, &str)] = &[("d", "", "id", ""), ("d", "./", "id", "/"), ("{SB}/elsewhere", "./", "id", ""), ("{SB}/elsewhere", ".//", "id", ""), ("../elsewhere", "", "id", ""), ("../elsewhere", " ", "id", ""), ("d/e", "", "dbl", "/."), ("{ROOT}/d", "", "id", "")];
+    for (i, (core, pre, inf, suf)) in spawn.iter().enumerate() {
+        let mut c = deco_case("task_spawn", core, pre, inf, suf, (i % 3) as u64);
+        // (pty tasks never reach a terminal status in this sandbox - with or without the harness's
+        // mount namespace; the pty path is covered by the T1 order facts and the resolver hook)
+        v.push(c);
+        if !thorough && i >= 5 {
+            break;
         }
     }
     v
@@ -794,6 +994,8 @@ fn coq_case(kind: &str, o: &Obs) -> String {
 fn worker(a: &Args) {
     let inp = a.extra.get("worker").unwrap();
     let outp = a.extra.get("wout").unwrap();
+    let wdir = std::path::Path::new(outp).parent().map(|p| p.to_path_buf()).unwrap_or_default();
+    let _ = jail_readonly_root(&[std::path::Path::new("/var/tmp"), std::path::Path::new("/tmp"), &wdir]);
     let jobs: Vec<Value> = serde_json::from_slice(&std::fs::read(inp).unwrap()).unwrap();
     let rt = tokio::runtime::Builder::new_current_thread().enable_all().build().unwrap();
     let mut res = vec![];
@@ -827,6 +1029,7 @@ fn main() {
         corpus(&std::path::Path::new(&verif_root).join("corpus/C13"))
     };
     if a.replay.is_none() {
+        jobs.extend(special_cases(a.thorough()));
         jobs.extend(if a.thorough() { systematic(a.seed, CORES.len(), true) } else { systematic(a.seed, 8, false) });
         for _ in 0..n {
             jobs.push(gen_case(&mut r));
